@@ -117,15 +117,18 @@ def run(ctx):
         if s.src == "NEXT_KB" and v == "One":
             flag_at_start = None
             for e in s.events:
-                if e.kind == "guard" and e.a == R.var0(R.flag):
-                    flag_at_start = e.b
+                # (a copy of the flag taken earlier counts as "the flag was consulted": whether the copy is still
+                # current is tablet-mode behaviour, C12-R1, which this property sets aside)
+                pol = R.flag_view(e.a) if e.kind == "guard" and isinstance(e.b, bool) else None
+                if pol:
+                    flag_at_start = e.b if pol == 1 else (not e.b)
                     break
             if flag_at_start is False:
                 # every event read outside tablet mode is stepped exactly once, with itself as argument
                 arg_ok = False
                 if len(steps) == 1:
                     a = steps[0][1].b
-                    payload = T("field", T("variant", T("okval", Rt), "One"), "0")
+                    payload = T("field", T("variant", LoopModel.ok_base(s, Rt), "One"), "0")
                     arg_ok = len(a) == 2 and a[1] == payload
                 ck.ob("C10-R3", fn, "NEXT_KB:One:stepped-exactly-once", len(steps) == 1 and arg_ok,
                       detail=None if (len(steps) == 1 and arg_ok) else "%d STEP calls, argument is the event read: %s" % (len(steps), arg_ok))
